@@ -11,6 +11,7 @@ import (
 	"regexp"
 	"runtime"
 	"strconv"
+	"sync"
 	"sync/atomic"
 	"time"
 
@@ -50,15 +51,25 @@ func goid() int {
 
 // blockedSenders counts the goroutines created by goroutine `parent` that are blocked in a
 // channel send inside one of the canary's handlers.
-func blockedSenders(parent int) int {
-	buf := make([]byte, 1<<20)
+func blockedSenders(parent int) int { return countHandlers(parent, true) }
+
+// liveHandlers counts the handler goroutines created by `parent` that still exist.
+func liveHandlers(parent int) int { return countHandlers(parent, false) }
+
+var dumpMu sync.Mutex
+var dumpBuf = make([]byte, 4<<20)
+
+func countHandlers(parent int, onlyChanSend bool) int {
+	dumpMu.Lock() // one stop-the-world dump at a time
+	defer dumpMu.Unlock()
+	var buf []byte
 	for {
-		n := runtime.Stack(buf, true)
-		if n < len(buf) {
-			buf = buf[:n]
+		n := runtime.Stack(dumpBuf, true)
+		if n < len(dumpBuf) {
+			buf = dumpBuf[:n]
 			break
 		}
-		buf = make([]byte, 2*len(buf))
+		dumpBuf = make([]byte, 2*len(dumpBuf))
 	}
 	tag := []byte(fmt.Sprintf(" in goroutine %d\n", parent))
 	cnt := 0
@@ -67,8 +78,8 @@ func blockedSenders(parent int) int {
 		if nl < 0 {
 			continue
 		}
-		if bytes.Contains(g[:nl], []byte("[chan send")) && bytes.Contains(g, []byte("canary.(*Canary).handle")) &&
-			bytes.Contains(append(g, '\n'), tag) {
+		if (!onlyChanSend || bytes.Contains(g[:nl], []byte("[chan send"))) && bytes.Contains(g, []byte("canary.(*Canary).handle")) &&
+			(bytes.Contains(g, tag) || bytes.HasSuffix(g, tag[:len(tag)-1])) {
 			cnt++
 		}
 	}
@@ -108,8 +119,8 @@ func runQueue(in QInput) (ob QObs, crash string) {
 	}
 	select {
 	case <-rec.entered:
-	case <-time.After(9 * time.Second):
-		return ob, "the gate group was not reported within 9 s"
+	case <-time.After(30 * time.Second):
+		return ob, "the gate group was not reported within 30 s"
 	}
 
 	// 2. the burst, every probe from its own goroutine created HERE
@@ -132,17 +143,21 @@ func runQueue(in QInput) (ob QObs, crash string) {
 	n := len(in.Burst)
 	completed := func() int { return int(atomic.LoadInt64(&done)) + rec.udpCount() - nudp }
 	deadline := time.Now().Add(20 * time.Second)
+	prevC := -1
 	for {
 		c := completed()
-		b := blockedSenders(me)
-		if c+b == n && completed() == c {
-			ob.Blocked = b
-			break
+		if c == prevC { // no progress since the last look: are the others blocked?
+			b := blockedSenders(me)
+			if c+b == n && completed() == c {
+				ob.Blocked = b
+				break
+			}
 		}
+		prevC = c
 		if time.Now().After(deadline) {
-			return ob, fmt.Sprintf("after 20 s %d of %d senders completed and %d are blocked", c, n, b)
+			return ob, fmt.Sprintf("after 30 s %d of %d senders completed, %d blocked", c, n, blockedSenders(me))
 		}
-		time.Sleep(time.Millisecond)
+		time.Sleep(10 * time.Millisecond)
 	}
 	// 3. release the detector; every sender must complete
 	rec.mu.Lock()
@@ -160,14 +175,9 @@ func runQueue(in QInput) (ob QObs, crash string) {
 		time.Sleep(time.Millisecond)
 	}
 	_ = budp
-	tEnd := time.Now()
-	ob.BurstMs = tEnd.Sub(t0).Milliseconds()
-	if ob.BurstMs > 1800 {
-		return ob, slowBurst
-	}
-	so, cr := collect(SInput{Ticks: in.Ticks}, rec, tEnd, SObs{})
-	ob.Ticks = so.Ticks
-	return ob, cr
+	ob.BurstMs = time.Since(t0).Milliseconds()
+	ob.Ticks, crash = collect(rec, 0, in.Ticks, "")
+	return ob, crash
 }
 
 func runQueueRetry(in QInput) (ob QObs, crash string) {
